@@ -299,11 +299,24 @@ def compare_gen(case, real, out):
     g = common.parse_fl(out[3:])
     if len(g) != len(real["grid"]):
         return f"grid size: code {len(real['grid'])} generated {len(g)}"
-    m = max(1e-300, max(abs(x) for x in real["grid"]))
+    m = grid_scale(case, real, g)
     for idx, (a, b) in enumerate(zip(real["grid"], g)):
         if abs(a - b) > 1e-9 * m:
-            return f"node {idx}: code {a!r} generated function {b!r} (max |grid| {m!r})"
+            return f"node {idx}: code {a!r} generated function {b!r} (scale {m!r})"
     return None
+
+
+def grid_scale(case, real, g):
+    """what the 1e-9 tolerance of a node-by-node comparison is relative to: the largest magnitude that enters the sums of
+    the call - result, previous content, and the quantity per cell volume of a single particle (contributions of opposite
+    sign may cancel to rounding noise, whose size depends on the order of summation, not on the result)"""
+    m = max([1e-300] + [abs(x) for x in real["grid"]] + [abs(x) for x in g if x == x])
+    if case.get("grid"):
+        m = max(m, max(abs(x) for x in case["grid"]))
+    vals = [abs(v) for v in (real.get("values") or []) if v == v and v != float("inf")]
+    if vals and real["V"] > 0:
+        m = max(m, max(vals) / real["V"])
+    return m
 
 
 # ------------------------------------------------------------------ generators
@@ -952,10 +965,10 @@ def compare(case, real, out):
     g = common.parse_fl(grid)
     if len(g) != len(real["grid"]):
         return f"grid size: code {len(real['grid'])} model {len(g)}"
-    m = max(1e-300, max(abs(x) for x in real["grid"]))
+    m = grid_scale(case, real, g)
     for idx, (a, b) in enumerate(zip(real["grid"], g)):
         if abs(a - b) > 1e-9 * m:
-            return f"node {idx}: code {a!r} model {b!r} (max |grid| {m!r})"
+            return f"node {idx}: code {a!r} model {b!r} (scale {m!r})"
     return None
 
 
